@@ -236,8 +236,8 @@ func (svc *service) stop() {
 	// Wait for all the goroutines to stop.
 	svc.wgStopped.Wait()
 
-	log.Debugf("(%s) Received %d bytes in %d messages", svc.cid(), svc.inStat.bytes, svc.inStat.msgs)
-	log.Debugf("(%s) Sent %d bytes in %d messages", svc.cid(), svc.outStat.bytes, svc.outStat.msgs)
+	log.Debugf("(%s) Received %d bytes in %d messages", svc.cid(), atomic.LoadInt64(&svc.inStat.bytes), atomic.LoadInt64(&svc.inStat.msgs))
+	log.Debugf("(%s) Sent %d bytes in %d messages", svc.cid(), atomic.LoadInt64(&svc.outStat.bytes), atomic.LoadInt64(&svc.outStat.msgs))
 
 	// Unsubscribe from all the topics for this client, only for the server side though
 	if !svc.client && svc.sess != nil {
